@@ -119,23 +119,23 @@ theorem locate_tag {tag : String} {cs : List Xml} {id : Key} {i : Nat}
 /-! ### the loops and lookups + edit -/
 
 theorem edit_deleteLoop (tag : String) (xs : List Xml) (w : Warn) (mid : Option PyExc)
-    (cs : List Xml) (ids : List Key) (ws : List Warn) (hw : WfKids tag cs = true) :
+    (cs : List Xml) (ids : List Key) (ws : List Warn) :
     Edit tag xs cs (deleteLoop tag w mid cs ids ws).kids := by
   induction ids generalizing cs ws with
   | nil => exact Edit.refl _ _ _
   | cons id ids ih =>
     unfold deleteLoop
-    rw [findChildId_ok tag cs id hw]
+    rw [findChildId_ok tag cs id]
     cases hl : locate tag cs id with
     | none =>
       simp only
       cases mid with
       | some e => exact Edit.refl _ _ _
-      | none => exact ih cs _ hw
+      | none => exact ih cs _
     | some i =>
       simp only
       exact (edit_eraseIdx tag xs cs i (locate_tag hl)).trans
-        (ih (cs.eraseIdx i) ws (WfKids_eraseIdx tag cs i hw))
+        (ih (cs.eraseIdx i) ws)
 
 theorem edit_insertDedup (tag : String) (xs : List Xml) (mid : Option PyExc) (ex : List Key)
     (cs : List Xml) (i : Nat) (ss : List Xml) (ws : List Warn)
@@ -155,7 +155,7 @@ theorem edit_insertDedup (tag : String) (xs : List Xml) (mid : Option PyExc) (ex
         (ih _ _ _ ht' hs')
 
 theorem edit_moveMany (tag : String) (xs : List Xml) (mid : Option PyExc) (cs : List Xml)
-    (t : Key) (ss : List Key) (hw : WfKids tag cs = true) :
+    (t : Key) (ss : List Key) :
     Edit tag xs cs (moveMany tag mid cs t ss).kids := by
   unfold moveMany
   split
@@ -166,18 +166,18 @@ theorem edit_moveMany (tag : String) (xs : List Xml) (mid : Option PyExc) (cs : 
     · rename_i idxs hc
       apply edit_moveNodes
       intro i hi
-      rcases collectSources_mem tag mid cs target hw ss [] idxs hc i hi with h1 | ⟨id, _, hl⟩
+      rcases collectSources_mem tag mid cs target ss [] idxs hc i hi with h1 | ⟨id, _, hl⟩
       · cases h1
       · exact locate_tag hl
 
 theorem edit_swapTwo (tag : String) (xs : List Xml) (mid : Option PyExc) (cs : List Xml)
-    (ids : List Key) (hw : WfKids tag cs = true) :
+    (ids : List Key) :
     Edit tag xs cs (swapTwo tag mid cs ids).kids := by
   unfold swapTwo
   split
   · exact Edit.refl _ _ _
   · rename_i a b _
-    rw [findRequired_ok tag mid cs a hw, findRequired_ok tag mid cs b hw]
+    rw [findRequired_ok tag mid cs a, findRequired_ok tag mid cs b]
     cases hla : locate tag cs a with
     | none => exact Edit.refl _ _ _
     | some i =>
